@@ -12,6 +12,8 @@ from ..loader import AnalysisError, Func, Program, ancestors, dotted, find_func_
 from . import common as C
 from .c16 import reachable_leaves, truth_at
 
+TRUE_ = Const(True)
+
 ID = 'C20'
 TECHNIQUE = ('abstract evaluation of each look-up to a guarded normal form: the query predicate must normalise to '
              '`key - query >= 0`, the search must be an in-order scan or bisect_left(wrapper, True) / '
@@ -94,7 +96,27 @@ def check_index_at_distance(prog: Program, rep, rule: str) -> bool:
         return e, 'quantity'
 
     def is_rows(e) -> bool:
+        if isinstance(e, ast.Name) and e.id in row_aliases:
+            return True
         return isinstance(e, ast.Attribute) and e.attr == 'trajectory' and isinstance(e.value, ast.Name) and e.value.id == me
+
+    # locals that only name the row list (assigned once, from self.trajectory)
+    row_aliases: set = set()
+    stores: Dict[str, list] = {}
+    for n in ast.walk(iad.node):
+        if isinstance(n, ast.Name) and isinstance(n.ctx, ast.Store):
+            stores.setdefault(n.id, []).append(n)
+    for n in ast.walk(iad.node):
+        if isinstance(n, (ast.Assign, ast.AnnAssign)) and n.value is not None:
+            tg = n.targets if isinstance(n, ast.Assign) else [n.target]
+            if len(tg) == 1 and isinstance(tg[0], ast.Name) and len(stores.get(tg[0].id, [])) == 1 and is_rows(n.value):
+                row_aliases.add(tg[0].id)
+    # module-level integer constants (a named sentinel)
+    consts = {}
+    for nm in {x.id for x in ast.walk(iad.node) if isinstance(x, ast.Name) and isinstance(x.ctx, ast.Load)} - set(stores) - set(iad.params):
+        v_ = C.const_number(prog, td, nm)
+        if v_ is not None and float(v_).is_integer():
+            consts[nm] = int(v_)
 
     # locals that name the list of row distances: [row.distance<scale> for row in self.trajectory]
     aliases = {}
@@ -116,6 +138,8 @@ def check_index_at_distance(prog: Program, rep, rule: str) -> bool:
         return None
 
     def scalar_of(e, tr):
+        if isinstance(e, ast.Name) and e.id in consts:
+            return ('int', consts[e.id])
         base, sc = scale_of(e)
         if isinstance(base, ast.Name) and base.id == qn:
             scales.add(('query', sc))
@@ -127,7 +151,7 @@ def check_index_at_distance(prog: Program, rep, rule: str) -> bool:
         return None
 
     roles = L.Roles(arrays={'$rows': None, '$rows.distance': 'nonstrict'}, reals=['$q'], same_length=[('$rows', '$rows.distance')],
-                    array_of=array_of, scalar_of=scalar_of, skip_assign=list(aliases))
+                    array_of=array_of, scalar_of=scalar_of, skip_assign=list(aliases) + sorted(row_aliases))
     rep.assume('index_at_distance: rows in non-decreasing distance (the solver records them in order)')
 
     def goal(ab, st, tag, v, node):
@@ -197,6 +221,456 @@ def check_index_at_distance(prog: Program, rep, rule: str) -> bool:
         else:
             rep.undecided(rule, where, L.pretty(o.text), 'not proved and no counterexample in the finite family')
     return not unknown
+
+
+def _engine_f_report(rep, rule, mod, func, res, L, what: str, key: str) -> bool:
+    """Common reporting of an engine-F result.  True when every obligation is proved (or a counterexample was reported)."""
+    rep.extra[f'{key}_proof'] = {'loops': res.loop_info, 'prover_calls': res.prover_calls, 'concrete_inputs': res.concrete_runs,
+                                 'concrete_inputs_not_readable': res.concrete_unknown,
+                                 'obligations': [{'text': L.pretty(o.text), 'status': o.status} for o in res.obligations][:20]}
+    unknown = [o for o in res.obligations if o.status != 'proved']
+    if res.witnesses:
+        rep.fail(rule, mod.path, func.node.lineno, func.qualname, key,
+                 'counterexample: ' + res.witnesses[0] + (f'; unproved: {L.pretty(unknown[0].text)}' if unknown else ''))
+        return True
+    if not [o for o in res.obligations if o.tag == 'return'] or (res.concrete_runs and res.concrete_unknown == res.concrete_runs):
+        rep.undecided(rule, func.where, f'{what} (engine F)', 'not readable as an index search')
+        return False
+    for o in res.obligations:
+        where = f'{mod.path}:{getattr(o.node, "lineno", func.node.lineno)}'
+        if o.status == 'proved':
+            rep.ok(rule, where, L.pretty(o.text))
+        else:
+            rep.undecided(rule, where, L.pretty(o.text), 'not proved and no counterexample in the finite family')
+    return not unknown
+
+
+def check_first_true_search(prog: Program, rep, rule: str) -> Optional[bool]:
+    """bisect_for_monotonic_condition(arr, wrapper), whatever its shape (library bisect, a hand-written bisection, a
+    scan): with wrapper[i] = check_condition(i) = p(arr[i]) (established separately for BisectWrapper) and p monotone
+    (False ... True), the value returned is the first index with p true, or -1 when there is none, for every length;
+    every index in range.  p(i) is modelled as key[i] >= q over a non-decreasing key sequence, which is exactly a
+    monotone predicate.  None when the function is outside the fragment."""
+    from fractions import Fraction
+    from .. import loopproof as L
+    hp = prog.module(C.M_HELP)
+    bf = prog.func(C.M_HELP, 'bisect_for_monotonic_condition')
+    arr_p, wr_p = bf.positional[0], bf.positional[1]
+
+    def pred_index(e):
+        """index expression when e is wrapper[i] / wrapper.check_condition(i) / wrapper.__getitem__(i)"""
+        if isinstance(e, ast.Subscript) and isinstance(e.value, ast.Name) and e.value.id == wr_p and not isinstance(e.slice, ast.Slice):
+            return e.slice
+        if isinstance(e, ast.Call) and isinstance(e.func, ast.Attribute) and isinstance(e.func.value, ast.Name) \
+                and e.func.value.id == wr_p and e.func.attr in ('check_condition', '__getitem__') and len(e.args) == 1 and not e.keywords:
+            return e.args[0]
+        if isinstance(e, ast.Call) and isinstance(e.func, ast.Name) and e.func.id == 'bool' and len(e.args) == 1:
+            return pred_index(e.args[0])
+        return None
+
+    def scalar_of(e, tr):
+        i = pred_index(e)
+        if i is not None:
+            return ('cmp', '>=', ('elem', '$key', tr.expr(i)), ('var', '$q'))
+        if isinstance(e, ast.Compare) and len(e.ops) == 1:
+            l, r_ = e.left, e.comparators[0]
+            for a_, b_, flip in ((l, r_, False), (r_, l, True)):
+                i = pred_index(a_)
+                if i is not None and isinstance(b_, ast.Constant) and isinstance(b_.value, bool):
+                    p_ = ('cmp', '>=', ('elem', '$key', tr.expr(i)), ('var', '$q'))
+                    op = type(e.ops[0])
+                    if flip:
+                        op = {ast.Lt: ast.Gt, ast.Gt: ast.Lt, ast.LtE: ast.GtE, ast.GtE: ast.LtE}.get(op, op)
+                    # p OP const, with False < True
+                    table = {(ast.Lt, True): ('not', p_), (ast.GtE, True): p_, (ast.Eq, True): p_, (ast.Is, True): p_,
+                             (ast.NotEq, True): ('not', p_), (ast.IsNot, True): ('not', p_),
+                             (ast.Gt, False): p_, (ast.LtE, False): ('not', p_), (ast.Eq, False): ('not', p_),
+                             (ast.Is, False): ('not', p_), (ast.NotEq, False): p_, (ast.IsNot, False): p_,
+                             (ast.LtE, True): ('bool', True), (ast.GtE, False): ('bool', True),
+                             (ast.Gt, True): ('bool', False), (ast.Lt, False): ('bool', False)}
+                    return table.get((op, b_.value))
+        if isinstance(e, ast.Call) and 2 <= len(e.args) <= 4 and not e.keywords:
+            fn = e.func.attr if isinstance(e.func, ast.Attribute) else e.func.id if isinstance(e.func, ast.Name) else ''
+            if fn in ('bisect_left', 'bisect_right', 'bisect') and isinstance(e.args[0], ast.Name) and e.args[0].id == wr_p:
+                tgt = e.args[1]
+                lo = tr.expr(e.args[2]) if len(e.args) > 2 else ('int', 0)
+                hi = tr.expr(e.args[3]) if len(e.args) > 3 else ('len', '$key')
+                if isinstance(tgt, ast.Constant) and ((fn == 'bisect_left' and tgt.value is True)
+                                                      or (fn != 'bisect_left' and tgt.value is False)):
+                    return ('bisect', 'left', '$key', ('var', '$q'), lo, hi)      # first index whose predicate is True
+                return ('opaque', ast.unparse(e))
+        return None
+
+    def array_of(e):
+        if isinstance(e, ast.Name) and e.id == wr_p:
+            return '$key'
+        return None
+    roles = L.Roles(arrays={arr_p: None, '$key': 'nonstrict'}, reals=['$q'], same_length=[(arr_p, '$key')],
+                    array_of=array_of, scalar_of=scalar_of)
+    rep.assume('first-true search: the predicate is monotone over the array (False ... True), as the helper documents')
+
+    def goal(ab, st, tag, v, node):
+        if tag != 'return':
+            return []
+        if v is None or v.kind != 'int':
+            return [(L.F_, f'line {node.lineno}: the value returned is not an index')]
+        r, q = v.lin, st.env['$q'].lin
+        n_ = ab.len_of('$key')
+        zero, one = L.Lin.const(0), L.Lin.const(1)
+        k_r = L.Lin.var(ab.pr.elem_term('$key', r))
+        k_p = L.Lin.var(ab.pr.elem_term('$key', r - one))
+        k_l = L.Lin.var(ab.pr.elem_term('$key', n_.plus(-1)))
+        found = L.f_and(L.f_le(zero, r), L.f_le(r, n_.plus(-1)), L.f_le(q, k_r), L.f_or(L.f_eq(r, zero), L.f_lt(k_p, q)))
+        none = L.f_and(L.f_eq(r, L.Lin.const(-1)), L.f_or(L.f_eq(n_, zero), L.f_lt(k_l, q)))
+        return [(L.f_or(found, none), f'line {node.lineno}: the index returned is the first one whose predicate holds, or -1 '
+                                      f'when none does')]
+
+    def inputs():
+        for n in range(0, 7):
+            for first_true in range(0, n + 1):
+                key = [Fraction(0) if i < first_true else Fraction(1) for i in range(n)]
+                yield {arr_p: [None] * n, '$key': key, '$q': Fraction(1), '$first': first_true}
+
+    def oracle(inp, c, outcome):
+        n = len(inp['$key'])
+        where = f'{n} rows, predicate true from row {inp["$first"]} on' if inp['$first'] < n else f'{n} rows, predicate never true'
+        if outcome[0] in ('raise', 'hang'):
+            return f'{where}: {outcome[1]}'
+        if outcome[0] != 'return':
+            return f'{where}: nothing returned'
+        want = inp['$first'] if inp['$first'] < n else -1
+        if outcome[1] != want:
+            return f'{where}: returns {outcome[1]}, a sequential scan finds {want}'
+        return None
+    try:
+        res = L.analyse_search(bf.node, roles, goal, inputs(), oracle)
+    except L.Unsupported as exc:
+        rep.note(f'bisect_for_monotonic_condition outside the fragment of engine F: {exc}')
+        return None
+    return _engine_f_report(rep, rule, hp, bf, res, L, 'bisect_for_monotonic_condition', 'first-true')
+
+
+def check_nearest(prog: Program, rep, rule: str) -> Optional[bool]:
+    """find_nearest_index_satisfying_monotonic_condition(arr, target, getter), whatever its shape: on keys in
+    non-decreasing order the index returned is in range and is the row whose key is nearest to the target, the earlier
+    row on ties (local optimality on both sides, which on a sorted sequence is global), for every length >= 1.
+    None when engine F cannot read the function."""
+    from fractions import Fraction
+    from .. import loopproof as L
+    hp = prog.module(C.M_HELP)
+    nf = prog.func(C.M_HELP, 'find_nearest_index_satisfying_monotonic_condition')
+    arr_p, tgt_p, get_p = nf.positional[0], nf.positional[1], nf.positional[2]
+
+    def is_wrapper_call(e) -> bool:
+        if not (isinstance(e, ast.Call) and (dotted(e.func) or '').split('.')[-1] == 'BisectWrapper'):
+            return False
+        a = [norm(x) for x in e.args] + [norm(k.value) for k in e.keywords]
+        return a == [arr_p, get_p]
+    stores: Dict[str, list] = {}
+    for n in ast.walk(nf.node):
+        if isinstance(n, ast.Name) and isinstance(n.ctx, ast.Store):
+            stores.setdefault(n.id, []).append(n)
+    aliases = set()
+    for n in ast.walk(nf.node):
+        if isinstance(n, (ast.Assign, ast.AnnAssign)) and n.value is not None:
+            tg = n.targets if isinstance(n, ast.Assign) else [n.target]
+            if len(tg) == 1 and isinstance(tg[0], ast.Name) and len(stores.get(tg[0].id, [])) == 1 and is_wrapper_call(n.value):
+                aliases.add(tg[0].id)
+
+    def array_of(e):
+        if is_wrapper_call(e) or (isinstance(e, ast.Name) and e.id in aliases):
+            return '$key'
+        return None
+
+    def scalar_of(e, tr):
+        if isinstance(e, ast.Call) and isinstance(e.func, ast.Name) and e.func.id == get_p and len(e.args) == 1 and not e.keywords \
+                and isinstance(e.args[0], ast.Subscript) and isinstance(e.args[0].value, ast.Name) and e.args[0].value.id == arr_p \
+                and not isinstance(e.args[0].slice, ast.Slice):
+            return ('elem', '$key', tr.expr(e.args[0].slice))
+        return None
+    roles = L.Roles(arrays={arr_p: None, '$key': 'nonstrict'}, reals=[tgt_p], same_length=[(arr_p, '$key')],
+                    array_of=array_of, scalar_of=scalar_of, skip_assign=sorted(aliases))
+    rep.assume('nearest search: keys in non-decreasing order')
+
+    def goal(ab, st, tag, v, node):
+        if tag != 'return':
+            return []
+        if v is None or v.kind != 'int':
+            return [(L.F_, f'line {node.lineno}: the value returned is not an index')]
+        r, q = v.lin, st.env[tgt_p].lin
+        n_ = ab.len_of('$key')
+        zero, one = L.Lin.const(0), L.Lin.const(1)
+        k_r = L.Lin.var(ab.pr.elem_term('$key', r))
+        k_p = L.Lin.var(ab.pr.elem_term('$key', r - one))
+        k_n = L.Lin.var(ab.pr.elem_term('$key', r + one))
+        two_q = q.scale(2)
+        left = L.f_or(L.f_eq(r, zero), L.f_and(L.f_lt(k_p, k_r), L.f_lt(k_p + k_r, two_q)))
+        right = L.f_or(L.f_eq(r, n_.plus(-1)), L.f_eq(k_n, k_r), L.f_le(two_q, k_r + k_n))
+        some = L.f_and(L.f_le(zero, r), L.f_le(r, n_.plus(-1)), left, right)
+        none = L.f_and(L.f_eq(n_, zero), L.f_eq(r, L.Lin.const(-1)))
+        return [(L.f_or(some, none), f'line {node.lineno}: the index returned is in range and no neighbour is nearer to the target '
+                                     f'(the earlier row on ties); -1 on an empty sequence')]
+
+    def inputs():
+        yield {arr_p: [], '$key': [], tgt_p: Fraction(1)}
+        for n in range(1, 6):
+            shapes = [[Fraction(2 * i) for i in range(n)]]
+            if n >= 3:
+                shapes.append([Fraction(0)] + [Fraction(2)] * (n - 2) + [Fraction(4)])
+            for key in shapes:
+                qs = {Fraction(-3), key[-1] + 3} | set(key) | {x + 1 for x in key} | {x + Fraction(1, 2) for x in key}
+                for q in sorted(qs):
+                    yield {arr_p: [None] * n, '$key': key, tgt_p: q}
+
+    def oracle(inp, c, outcome):
+        key, q = inp['$key'], inp[tgt_p]
+        where = f'keys {[str(x) for x in key]}, target {q}'
+        if outcome[0] in ('raise', 'hang'):
+            return f'{where}: {outcome[1]}'
+        if outcome[0] != 'return':
+            return f'{where}: nothing returned'
+        want = min(range(len(key)), key=lambda i: (abs(key[i] - q), i)) if key else -1
+        if outcome[1] != want:
+            return f'{where}: returns {outcome[1]}, the nearest row (earlier on ties) is {want}'
+        return None
+    try:
+        res = L.analyse_search(nf.node, roles, goal, inputs(), oracle)
+    except L.Unsupported as exc:
+        rep.note(f'find_nearest_index_satisfying_monotonic_condition outside the fragment of engine F: {exc}')
+        return None
+    return _engine_f_report(rep, rule, hp, nf, res, L, 'nearest search', 'nearest')
+
+
+def check_wrapper_and_wiring(prog: Program, rep, rule: str) -> None:
+    """Engine D: BisectWrapper exposes the predicate of the element; find_first_index_satisfying_monotonic_condition
+    hands (arr, BisectWrapper(arr, predicate)) to the search and returns what it finds; the distance / time helpers
+    search shot.trajectory with `distance in the caller's unit >= query` / `time >= query` and return the index found."""
+    hp = prog.module(C.M_HELP)
+    ctx = Ctx(hp, None, None, 0)
+    bw = prog.cls(C.M_HELP, 'BisectWrapper')
+    ev = Evaluator(prog, hooks=C.pref_hooks(prog))
+    st = State()
+    try:
+        w = ev.construct(bw, [SymObj('arr'), SymObj('pred')], {}, st, ctx)
+        env = {'w': w, 'arr': SymObj('arr'), 'pred': SymObj('pred'), 'i': S('i')}
+        want_p = ev.describe(ev.eval_text('pred(arr[i])', dict(env), hp, st))
+        want_l = ev.describe(ev.eval_text('len(arr)', dict(env), hp, st))
+        got = {'wrapper[i]': ev.describe(ev.eval_text('w[i]', dict(env), hp, st)),
+               'len(wrapper)': ev.describe(ev.eval_text('len(w)', dict(env), hp, st))}
+        if 'check_condition' in bw.methods:
+            got['wrapper.check_condition(i)'] = ev.describe(ev.eval_text('w.check_condition(i)', dict(env), hp, st))
+    except Undecided as exc:
+        raise AnalysisError(f'BisectWrapper: {exc}') from exc
+    bad = [f'{k} is {v}' for k, v in got.items() if v != (want_l if k.startswith('len') else want_p)]
+    if bad:
+        rep.fail(rule, hp.path, bw.node.lineno, 'BisectWrapper', 'wrapper', '; '.join(bad) + f' (expected {want_p} / {want_l})')
+    else:
+        rep.ok(rule, f'{hp.path}:{bw.node.lineno}', 'BisectWrapper[i] = predicate(array[i]), len = len(array)')
+
+    # find_first_index_satisfying_monotonic_condition
+    ff = prog.func(C.M_HELP, 'find_first_index_satisfying_monotonic_condition')
+    rep.saw(ff)
+    seen = []
+
+    def h_search(ev_, func, args, kwargs, st_, self_val):
+        a = list(args) + [kwargs[k] for k in func.positional[len(args):] if k in kwargs]
+        seen.append((a, st_))
+        return SymObj('search@result')
+    ev1 = Evaluator(prog, hooks={'call:bisect_for_monotonic_condition': h_search})
+    try:
+        r, _st = ev1.call_value(ff, [SymObj('arr'), SymObj('pred')])
+    except Undecided as exc:
+        raise AnalysisError(f'{ff.qualname}: {exc}') from exc
+    outs = [x for _p, x in cond_leaves(r)]
+    problems = []
+    if not seen:
+        raise AnalysisError(f'{ff.qualname} does not reach bisect_for_monotonic_condition in the abstract evaluation')
+    for a, st_ in seen:
+        arr_ok = len(a) == 2 and isinstance(a[0], SymObj) and a[0].path == 'arr'
+        wr = a[1] if len(a) == 2 else None
+        wr_ok = isinstance(wr, Inst) and wr.cls is bw
+        if wr_ok:
+            h = ev1.hp(st_, wr.oid)
+            wr_ok = all(isinstance(x, SymObj) for x in (h.get('array'), h.get('callable'))) and h['array'].path == 'arr' \
+                and h['callable'].path == 'pred'
+        if not arr_ok:
+            problems.append(f'searches {ev1.describe(a[0]) if a else None}, not the array it was given')
+        if not wr_ok:
+            problems.append('the wrapper handed to the search is not BisectWrapper(the same array, the given predicate)')
+    if not all(isinstance(x, SymObj) and x.path == 'search@result' for x in outs):
+        problems.append(f'returns {outs[0]!r}, not the index found')
+    if problems:
+        rep.fail(rule, hp.path, ff.node.lineno, ff.qualname, 'wrap', '; '.join(sorted(set(problems))))
+    else:
+        rep.ok(rule, ff.where, 'find_first_index...: wraps the same array with the given predicate and returns the index found')
+
+    # the distance / time helpers
+    for fname, key, what in (('find_index_of_point_for_distance', 'x', 'distance'), ('find_index_for_time_point', 't', 'time')):
+        f = prog.func(C.M_HELP, fname)
+        rep.saw(f)
+        problems = []
+        n_checked = 0
+        units = ('Meter', 'Yard') if key == 'x' else (None,)
+        for uname in units:
+            calls = []
+
+            def h_first(ev_, func, args, kwargs, st_, self_val):
+                a = list(args) + [kwargs[k] for k in func.positional[len(args):] if k in kwargs]
+                if len(a) != 2:
+                    raise Undecided('call of the search')
+                st2 = st_.copy()
+                row = _row(ev_, st2, prog)
+                calls.append((a[0], ev_.lift(lambda p_: ev_.call(p_, [row], {}, st2, Ctx(hp, f, None, 1)), a[1])))
+                return SymObj('first@result')
+
+            def h_near(ev_, func, args, kwargs, st_, self_val):
+                return SymObj('nearest@result')
+            ev2 = Evaluator(prog, hooks={'call:find_first_index_satisfying_monotonic_condition': h_first,
+                                         'call:find_nearest_index_satisfying_monotonic_condition': h_near,
+                                         **C.pref_hooks(prog)})
+            env = {f.positional[0]: SymObj('shot'), f.positional[1]: S('q')}
+            if key == 'x' and len(f.positional) > 2:
+                env[f.positional[2]] = C.enum_val(prog, uname)
+            if key == 't' and len(f.positional) > 2:
+                env[f.positional[2]] = TRUE_
+                for p_ in f.positional[3:]:
+                    env[p_] = S('dev')
+            try:
+                tree, _st = ev2.run_func(f, env)
+            except Undecided as exc:
+                raise AnalysisError(f'{fname}: {exc}') from exc
+            for _path, leaf in leaves(tree):
+                if leaf.kind == 'raise':
+                    continue
+                vals = [x for _p, x in cond_leaves(leaf.value)] if leaf.value is not None else [None]
+                if leaf.kind != 'return' or not all(isinstance(x, SymObj) and x.path == 'first@result' for x in vals):
+                    problems.append(f'returns {leaf.value!r} on some path, not the index found by the search')
+            if not calls:
+                raise AnalysisError(f'{fname} does not reach find_first_index_satisfying_monotonic_condition in the abstract '
+                                    f'evaluation')
+            for arr, v in calls:
+                n_checked += 1
+                if not (isinstance(arr, SymObj) and arr.path == 'shot.trajectory'):
+                    problems.append(f'searches {ev2.describe(arr)}, not the shot\'s trajectory')
+                why = _is_ge(ev2, v, key, 'q')
+                if why is None and key == 'x':
+                    want_key = C.read_raw_in(ev2, prog, 'Distance', 'x', uname)
+                    if not (isinstance(v, Cond) and v.test.rf is not None and v.test.rf.equals(want_key - A.sym('q'))):
+                        why = (f'does not read the row distance in the caller\'s unit: with unit {uname} it tests '
+                               f'{getattr(v, "test", v)!r}, expected {want_key!r} - q >= 0')
+                if why:
+                    problems.append(f'the {what} predicate {why}')
+        if problems:
+            rep.fail(rule, hp.path, f.node.lineno, f.qualname, f'{fname}:predicate', f'{fname}: ' + '; '.join(sorted(set(problems))[:3]))
+        else:
+            rep.ok(rule, f.where, f'{fname}: predicate is `{what} >= query` over shot.trajectory ({n_checked} evaluations), the index '
+                   f'found is returned')
+
+
+def _first_true_by_form(prog: Program, rep, ev, hp, bf, bw) -> None:
+    """Fallback when engine F cannot read the function: the library-bisect form, read by engine D."""
+    # ---- bisect_for_monotonic_condition ----------------------------------------------------------------
+    bcalls = [c for c in ast.walk(bf.node) if isinstance(c, ast.Call) and (dotted(c.func) or '').startswith('bisect.')]
+    problems = []
+    if len(bcalls) != 1:
+        raise AnalysisError('bisect_for_monotonic_condition: neither readable by engine F nor of the one-bisect-call form')
+    else:
+        c = bcalls[0]
+        kind = dotted(c.func).split('.')[-1]
+        a = [norm(x) for x in c.args]
+        arr, wr = bf.positional[0], bf.positional[1]
+        ok = (kind == 'bisect_left' and a[:2] == [wr, 'True']) or (kind in ('bisect_right', 'bisect') and a[:2] == [wr, 'False'])
+        if not ok:
+            problems.append(f'`{norm(c)}` does not locate the first True of the predicate sequence')
+        if len(a) >= 3 and a[2] != '0':
+            problems.append(f'search starts at {a[2]}')
+        if len(a) >= 4 and a[3] != f'len({arr})':
+            problems.append(f'search ends at {a[3]}')
+    st = State()
+    wrapper = ev.new_inst(st, bw, {'array': SymObj('arr'), 'callable': SymObj('pred')})
+    try:
+        r, st = ev.call_value(bf, [SymObj('arr'), wrapper], st=st)
+    except Undecided as exc:
+        raise AnalysisError(f'bisect_for_monotonic_condition: {exc}') from exc
+    idx = 'bisect_left@result' if bcalls and dotted(bcalls[0].func).endswith('bisect_left') else 'bisect_right@result'
+    for path, leaf in cond_leaves(r):
+        beyond = any(t.kind == 'nonneg' and t.rf is not None and t.rf.equals(A.sym(idx) - A.sym('len(arr)')) and pol
+                     for t, pol in path)
+        pred_true = any(t.kind == 'truthy' and 'pred' in t.key and pol for t, pol in path)
+        pred_false = any(t.kind == 'truthy' and 'pred' in t.key and not pol for t, pol in path)
+        is_idx = isinstance(leaf, SymObj) and leaf.path == idx
+        is_m1 = isinstance(leaf, Scalar) and leaf.rf.equals(A.rf(-1))
+        if beyond and not is_m1:
+            problems.append('an index beyond the array is not turned into -1')
+        if not beyond and pred_true and not is_idx:
+            problems.append('a qualifying index is not returned')
+        if not beyond and pred_false and not is_m1:
+            problems.append('an index whose predicate is false is not turned into -1')
+        if not beyond and not pred_true and not pred_false:
+            problems.append('the found index is returned without re-checking the predicate')
+    if problems:
+        rep.fail('C20.R1', hp.path, bf.node.lineno, bf.qualname, 'bisect', '; '.join(sorted(set(problems))))
+    else:
+        rep.ok('C20.R1', bf.where, 'first True by bisect over [0, len), -1 when beyond the array or predicate false')
+
+
+def _nearest_by_form(prog: Program, rep, ev, hp, nf) -> None:
+    """Fallback when engine F cannot read the function: the bisect_left + neighbour-comparison form, read by engine D."""
+    st = State()
+    try:
+        r, st = ev.call_value(nf, [SymObj('arr'), S('q'), SymObj('g')], st=st)
+    except Undecided as exc:
+        raise AnalysisError(f'nearest index: {exc}') from exc
+    pos = A.sym('bisect_left@result')
+    problems = []
+    bc = [c for c in ast.walk(nf.node) if isinstance(c, ast.Call) and (dotted(c.func) or '').startswith('bisect.')]
+    if len(bc) != 1 or dotted(bc[0].func) != 'bisect.bisect_left' or len(bc[0].args) != 2 \
+            or norm(bc[0].args[0]) != f'BisectWrapper({nf.positional[0]}, {nf.positional[2]})' \
+            or norm(bc[0].args[1]) != nf.positional[1]:
+        raise AnalysisError('nearest search: neither readable by engine F nor of the bisect_left form')
+    # the two neighbour keys are the symbols g(arr[pos-1]) and g(arr[pos]) appearing in the guards
+    gsyms = set()
+    for path, leaf in cond_leaves(r):
+        for t, pol in path:
+            if t.rf is not None:
+                gsyms |= {x for x in t.rf.symbols() if x.startswith('g(')}
+    before_s = [x for x in gsyms if repr(pos - 1) in x]
+    after_s = [x for x in gsyms if x not in before_s]
+    seen_tie = len(before_s) == 1 and len(after_s) == 1
+    # end cases
+    def leaf_at(env):
+        for path, leaf in cond_leaves(r):
+            ok = True
+            for t, pol in path:
+                if t.rf is None:
+                    continue
+                try:
+                    x = t.rf.evalf(env)
+                except (KeyError, ZeroDivisionError, ValueError):
+                    continue
+                if {'nz': x != 0, 'pos': x > 0, 'nonneg': x >= 0}[t.kind] != pol:
+                    ok = False
+            if ok:
+                return leaf
+        return None
+    if seen_tie:
+        # ordering enumeration: tie, earlier nearer, later nearer (pos = 2 of 5)
+        for label, bv, av, want_off in (('tie', 1.0, 3.0, -1), ('earlier row nearer', 1.5, 3.0, -1), ('later row nearer', 1.0, 2.5, 0)):
+            lf = leaf_at({'bisect_left@result': 2.0, 'len(arr)': 5.0, before_s[0]: bv, after_s[0]: av, 'q': 2.0})
+            if isinstance(lf, SymObj):
+                lf = Scalar(A.sym(lf.path))
+            if not (isinstance(lf, Scalar) and lf.rf.equals(pos + want_off)):
+                problems.append(f'{label}: returns {lf!r}, expected {"the earlier row" if want_off else "the later row"}')
+    l0 = leaf_at({'bisect_left@result': 0.0, 'len(arr)': 5.0})
+    ln = leaf_at({'bisect_left@result': 5.0, 'len(arr)': 5.0})
+    if not (isinstance(l0, Scalar) and l0.rf.is_zero()):
+        problems.append(f'position 0 yields {l0!r}, expected row 0')
+    if not (isinstance(ln, Scalar) and ln.rf.equals(A.sym('len(arr)') - 1)):
+        problems.append(f'position len yields {ln!r}, expected the last row')
+    if problems:
+        rep.fail('C20.R1', hp.path, nf.node.lineno, nf.qualname, 'nearest', '; '.join(sorted(set(problems))))
+    else:
+        rep.ok('C20.R1', nf.where, 'nearest: bisect_left on the key, neighbours compared with <= (earlier row wins ties)')
 
 
 def check_apex(prog: Program, rep, rule: str) -> None:
@@ -352,7 +826,9 @@ def run(prog: Program, rep, thorough: bool) -> None:
     gens = [n for n in ast.walk(iad.node) if isinstance(n, ast.GeneratorExp)]
     loops = [n for n in ast.walk(iad.node) if isinstance(n, ast.For)]
     pred = idx_var = order_ok = default_ok = None
-    if gens and not loops:
+    if decided_by_f:
+        pass                # decided as a whole, for every length, by engine F above
+    elif gens and not loops:
         g = gens[0]
         nxt = parent(g)
         if not (isinstance(nxt, ast.Call) and (dotted(nxt.func) or '') == 'next' and len(nxt.args) == 2):
@@ -441,215 +917,67 @@ def run(prog: Program, rep, thorough: bool) -> None:
     else:
         rep.ok('C20.R1', iad.where, 'ascending scan, first i with distance >= d, default -1')
 
-    # ---- helper predicates -----------------------------------------------------------------------
-    for fname, key, what in (('find_index_of_point_for_distance', 'x', 'distance'), ('find_index_for_time_point', 't', 'time')):
-        f = prog.func(C.M_HELP, fname)
-        rep.saw(f)
-        lams = [n for n in ast.walk(f.node) if isinstance(n, ast.Lambda)]
-        target = None
-        for c in ast.walk(f.node):
-            if isinstance(c, ast.Call) and (dotted(c.func) or '') == 'find_first_index_satisfying_monotonic_condition':
-                target = c
-        if target is None or len(target.args) < 2:
-            rep.fail('C20.R1', hp.path, f.node.lineno, f.qualname, f'{fname}:search',
-                     f'{fname} no longer searches with find_first_index_satisfying_monotonic_condition')
-            continue
-        parg = target.args[1]
-        lam = parg if isinstance(parg, ast.Lambda) else None
-        if lam is None and isinstance(parg, ast.Name):
-            for n in ast.walk(f.node):
-                if isinstance(n, ast.Assign) and isinstance(n.targets[0], ast.Name) and n.targets[0].id == parg.id \
-                        and isinstance(n.value, ast.Lambda):
-                    lam = n.value
-        arr_ok = norm(target.args[0]) == f'{f.positional[0]}.trajectory'
-        if lam is None:
-            rep.fail('C20.R1', hp.path, target.lineno, f.qualname, f'{fname}:predicate', 'predicate is not a lambda')
-            continue
-        st = State()
-        st.env[lam.args.args[0].arg] = _row(ev, st, prog)
-        qname = f.positional[1]
-        st.env[qname] = S('q')
-        for p in f.positional[2:]:
-            d = f.default_of(p)
-            if d is not None:
-                st.env[p] = ev.eval(d, State(), Ctx(hp, None, None, 0))
-        try:
-            v = ev.eval(lam.body, st, Ctx(hp, f, None, 0))
-            why = _is_ge(ev, v, key, 'q')
-            if why is None and key == 'x':
-                # the key must be the row's distance read in the caller's unit: try two units
-                unit_param = f.positional[2] if len(f.positional) > 2 else None
-                for uname in ('Meter', 'Yard'):
-                    st2 = State()
-                    st2.env[lam.args.args[0].arg] = _row(ev, st2, prog)
-                    st2.env[qname] = S('q')
-                    if unit_param:
-                        st2.env[unit_param] = C.enum_val(prog, uname)
-                    v2 = ev.eval(lam.body, st2, Ctx(hp, f, None, 0))
-                    want_key = Scalar(C.read_raw_in(ev, prog, 'Distance', 'x', uname))
-                    if not (isinstance(v2, Cond) and v2.test.rf is not None and isinstance(want_key, Scalar)
-                            and v2.test.rf.equals(want_key.rf - A.sym('q'))):
-                        why = (f'does not read the row distance in the caller\'s unit: with unit {uname} it tests '
-                               f'{getattr(v2, "test", v2)!r}, expected {want_key!r} - q >= 0')
-                        break
-        except Undecided as exc:
-            raise AnalysisError(f'{fname} predicate: {exc}') from exc
-        if why or not arr_ok:
-            rep.fail('C20.R1', hp.path, lam.lineno, f.qualname, f'{fname}:predicate',
-                     f'{fname}: the {what} predicate `{norm(lam.body)}` {why}' if why else
-                     f'{fname} searches `{norm(target.args[0])}`, not the shot\'s trajectory')
-        else:
-            rep.ok('C20.R1', hp.where(lam), f'{fname}: predicate is `{what} >= query` over shot.trajectory')
-
-    # ---- BisectWrapper -----------------------------------------------------------------------------
-    bw = prog.cls(C.M_HELP, 'BisectWrapper')
-    want = {'__getitem__': 'self.callable(self.array[index])', 'check_condition': 'self.callable(self.array[index])',
-            '__len__': 'len(self.array)'}
-    bad = []
-    for mname, expr in want.items():
-        m = bw.methods.get(mname)
-        rets = [r for r in ast.walk(m.node) if isinstance(r, ast.Return)] if m else []
-        arg = m.positional[1] if m and len(m.positional) > 1 else 'index'
-        if not m or len(rets) != 1 or norm(rets[0].value) != expr.replace('index', arg):
-            bad.append(f'{mname} returns `{norm(rets[0].value) if rets else None}`')
-    init = bw.methods.get('__init__')
-    if init is None or {norm(s) for s in init.node.body if isinstance(s, ast.Assign)} != {
-            f'self.array = {init.positional[1]}', f'self.callable = {init.positional[2]}'}:
-        bad.append('__init__ does not store (array, callable)')
-    if bad:
-        rep.fail('C20.R1', hp.path, bw.node.lineno, 'BisectWrapper', 'wrapper', '; '.join(bad))
-    else:
-        rep.ok('C20.R1', f'{hp.path}:{bw.node.lineno}', 'BisectWrapper[i] = predicate(array[i]), len = len(array)')
-
-    # ---- bisect_for_monotonic_condition ----------------------------------------------------------------
+    # ---- helper chain ------------------------------------------------------------------------------
+    check_wrapper_and_wiring(prog, rep, 'C20.R1')
     bf = prog.func(C.M_HELP, 'bisect_for_monotonic_condition')
     rep.saw(bf)
-    bcalls = [c for c in ast.walk(bf.node) if isinstance(c, ast.Call) and (dotted(c.func) or '').startswith('bisect.')]
-    problems = []
-    if len(bcalls) != 1:
-        problems.append('expected one bisect call')
-    else:
-        c = bcalls[0]
-        kind = dotted(c.func).split('.')[-1]
-        a = [norm(x) for x in c.args]
-        arr, wr = bf.positional[0], bf.positional[1]
-        ok = (kind == 'bisect_left' and a[:2] == [wr, 'True']) or (kind in ('bisect_right', 'bisect') and a[:2] == [wr, 'False'])
-        if not ok:
-            problems.append(f'`{norm(c)}` does not locate the first True of the predicate sequence')
-        if len(a) >= 3 and a[2] != '0':
-            problems.append(f'search starts at {a[2]}')
-        if len(a) >= 4 and a[3] != f'len({arr})':
-            problems.append(f'search ends at {a[3]}')
-    st = State()
-    wrapper = ev.new_inst(st, bw, {'array': SymObj('arr'), 'callable': SymObj('pred')})
-    try:
-        r, st = ev.call_value(bf, [SymObj('arr'), wrapper], st=st)
-    except Undecided as exc:
-        raise AnalysisError(f'bisect_for_monotonic_condition: {exc}') from exc
-    idx = 'bisect_left@result' if bcalls and dotted(bcalls[0].func).endswith('bisect_left') else 'bisect_right@result'
-    for path, leaf in cond_leaves(r):
-        beyond = any(t.kind == 'nonneg' and t.rf is not None and t.rf.equals(A.sym(idx) - A.sym('len(arr)')) and pol
-                     for t, pol in path)
-        pred_true = any(t.kind == 'truthy' and 'pred' in t.key and pol for t, pol in path)
-        pred_false = any(t.kind == 'truthy' and 'pred' in t.key and not pol for t, pol in path)
-        is_idx = isinstance(leaf, SymObj) and leaf.path == idx
-        is_m1 = isinstance(leaf, Scalar) and leaf.rf.equals(A.rf(-1))
-        if beyond and not is_m1:
-            problems.append('an index beyond the array is not turned into -1')
-        if not beyond and pred_true and not is_idx:
-            problems.append('a qualifying index is not returned')
-        if not beyond and pred_false and not is_m1:
-            problems.append('an index whose predicate is false is not turned into -1')
-        if not beyond and not pred_true and not pred_false:
-            problems.append('the found index is returned without re-checking the predicate')
-    if problems:
-        rep.fail('C20.R1', hp.path, bf.node.lineno, bf.qualname, 'bisect', '; '.join(sorted(set(problems))))
-    else:
-        rep.ok('C20.R1', bf.where, 'first True by bisect over [0, len), -1 when beyond the array or predicate false')
-    ff = prog.func(C.M_HELP, 'find_first_index_satisfying_monotonic_condition')
-    rets = [r for r in ast.walk(ff.node) if isinstance(r, ast.Return)]
-    w = f'bisect_for_monotonic_condition({ff.positional[0]}, BisectWrapper({ff.positional[0]}, {ff.positional[1]}))'
-    if len(rets) == 1 and norm(rets[0].value) == w:
-        rep.ok('C20.R1', ff.where, 'find_first_index...: wraps the same array with the given predicate')
-    else:
-        rep.fail('C20.R1', hp.path, ff.node.lineno, ff.qualname, 'wrap',
-                 f'returns `{norm(rets[0].value) if rets else None}`, expected `{w}`')
+    bw = prog.cls(C.M_HELP, 'BisectWrapper')
+    proved = check_first_true_search(prog, rep, 'C20.R1')
+    if proved is None:
+        _first_true_by_form(prog, rep, ev, hp, bf, bw)
 
     # ---- nearest time ----------------------------------------------------------------------------------
     nf = prog.func(C.M_HELP, 'find_nearest_index_satisfying_monotonic_condition')
     rep.saw(nf)
-    st = State()
-    try:
-        r, st = ev.call_value(nf, [SymObj('arr'), S('q'), SymObj('g')], st=st)
-    except Undecided as exc:
-        raise AnalysisError(f'nearest index: {exc}') from exc
-    pos = A.sym('bisect_left@result')
-    problems = []
-    bc = [c for c in ast.walk(nf.node) if isinstance(c, ast.Call) and (dotted(c.func) or '').startswith('bisect.')]
-    if len(bc) != 1 or dotted(bc[0].func) != 'bisect.bisect_left' or len(bc[0].args) != 2 \
-            or norm(bc[0].args[0]) != f'BisectWrapper({nf.positional[0]}, {nf.positional[2]})' \
-            or norm(bc[0].args[1]) != nf.positional[1]:
-        problems.append('position is not bisect_left(BisectWrapper(arr, key), target)')
-    # the two neighbour keys are the symbols g(arr[pos-1]) and g(arr[pos]) appearing in the guards
-    gsyms = set()
-    for path, leaf in cond_leaves(r):
-        for t, pol in path:
-            if t.rf is not None:
-                gsyms |= {x for x in t.rf.symbols() if x.startswith('g(')}
-    before_s = [x for x in gsyms if repr(pos - 1) in x]
-    after_s = [x for x in gsyms if x not in before_s]
-    seen_tie = len(before_s) == 1 and len(after_s) == 1
-    # end cases
-    def leaf_at(env):
-        for path, leaf in cond_leaves(r):
-            ok = True
-            for t, pol in path:
-                if t.rf is None:
-                    continue
-                try:
-                    x = t.rf.evalf(env)
-                except (KeyError, ZeroDivisionError, ValueError):
-                    continue
-                if {'nz': x != 0, 'pos': x > 0, 'nonneg': x >= 0}[t.kind] != pol:
-                    ok = False
-            if ok:
-                return leaf
-        return None
-    if seen_tie:
-        # ordering enumeration: tie, earlier nearer, later nearer (pos = 2 of 5)
-        for label, bv, av, want_off in (('tie', 1.0, 3.0, -1), ('earlier row nearer', 1.5, 3.0, -1), ('later row nearer', 1.0, 2.5, 0)):
-            lf = leaf_at({'bisect_left@result': 2.0, 'len(arr)': 5.0, before_s[0]: bv, after_s[0]: av, 'q': 2.0})
-            if isinstance(lf, SymObj):
-                lf = Scalar(A.sym(lf.path))
-            if not (isinstance(lf, Scalar) and lf.rf.equals(pos + want_off)):
-                problems.append(f'{label}: returns {lf!r}, expected {"the earlier row" if want_off else "the later row"}')
-    l0 = leaf_at({'bisect_left@result': 0.0, 'len(arr)': 5.0})
-    ln = leaf_at({'bisect_left@result': 5.0, 'len(arr)': 5.0})
-    if not (isinstance(l0, Scalar) and l0.rf.is_zero()):
-        problems.append(f'position 0 yields {l0!r}, expected row 0')
-    if not (isinstance(ln, Scalar) and ln.rf.equals(A.sym('len(arr)') - 1)):
-        problems.append(f'position len yields {ln!r}, expected the last row')
-    if problems:
-        rep.fail('C20.R1', hp.path, nf.node.lineno, nf.qualname, 'nearest', '; '.join(sorted(set(problems))))
-    else:
-        rep.ok('C20.R1', nf.where, 'nearest: bisect_left on the key, neighbours compared with <= (earlier row wins ties)')
-    # deviation test in find_index_for_time_point
+    if check_nearest(prog, rep, 'C20.R1') is None:
+        _nearest_by_form(prog, rep, ev, hp, nf)
+    # deviation test in find_index_for_time_point: by evaluation with the nearest search replaced by an index symbol,
+    # then sampling (row exactly at the allowed deviation, inside, outside, on either side; the empty-sequence -1)
     ft = prog.func(C.M_HELP, 'find_index_for_time_point')
-    dev_ok = False
-    for n in ast.walk(ft.node):
-        if isinstance(n, ast.If) and isinstance(n.test, ast.Compare) and 'abs(' in norm(n.test):
-            c = n.test
-            if len(c.ops) == 1 and isinstance(c.ops[0], ast.LtE) and norm(c.comparators[0]) == ft.positional[3] \
-                    and any(isinstance(x, ast.Return) and isinstance(x.value, ast.Name) for x in n.body):
-                dev_ok = True
-            elif len(c.ops) == 1 and isinstance(c.ops[0], ast.GtE) and norm(c.left) == ft.positional[3]:
-                dev_ok = True
-    if dev_ok:
-        rep.ok('C20.R1', ft.where, 'deviation test is `|t_row - t| <= allowed deviation`')
+    evd = Evaluator(prog, hooks={'call:find_nearest_index_satisfying_monotonic_condition': lambda *a_: S('n'),
+                                 'call:find_first_index_satisfying_monotonic_condition': lambda *a_: S('f'),
+                                 **C.pref_hooks(prog)})
+    if len(ft.positional) < 4:
+        raise AnalysisError('find_index_for_time_point lost its parameters')
+    env = {ft.positional[0]: SymObj('shot'), ft.positional[1]: S('q'), ft.positional[2]: Const(False), ft.positional[3]: S('dev')}
+    try:
+        tree, _st = evd.run_func(ft, env)
+    except Undecided as exc:
+        raise AnalysisError(f'find_index_for_time_point: {exc}') from exc
+    row_syms = set()
+    for path_, _leaf in leaves(tree):
+        for t_, _pol in path_:
+            if t_.rf is not None:
+                row_syms |= {x for x in t_.rf.symbols() if x not in ('q', 'dev', 'n', 'f')}
+    if len(row_syms) != 1:
+        raise AnalysisError(f'find_index_for_time_point: the time of the row found is not one symbol of the outcome tree: {sorted(row_syms)}')
+    tsym = next(iter(row_syms))
+    samples = [('a row exactly at the allowed deviation (later than the query)', 5.0, 4.0, 1.0, True),
+               ('a row exactly at the allowed deviation (earlier than the query)', 3.0, 4.0, 1.0, True),
+               ('a row inside the allowed deviation', 5.0, 4.75, 0.5, True),
+               ('a row at the query with zero allowed deviation', 4.0, 4.0, 0.0, True),
+               ('a row off the query with zero allowed deviation', 5.0, 4.0, 0.0, False),
+               ('a row beyond the allowed deviation (later)', 5.0, 4.0, 0.5, False),
+               ('a row beyond the allowed deviation (earlier)', 3.0, 4.0, 0.5, False)]
+    dev_bad = []
+    for label, tr_, q_, d_, accept in samples:
+        for n_ in (0.0, 3.0):
+            lf = reachable_leaves(tree, {tsym: tr_, 'q': q_, 'dev': d_, 'n': n_})
+            vals = [x for l_ in lf if l_.kind == 'return' and l_.value is not None for _p, x in cond_leaves(l_.value)]
+            if len(vals) != len(lf) or not vals:
+                dev_bad.append(f'{label}: no value returned')
+            elif accept and not all(isinstance(x, Scalar) and x.rf.equals(A.sym('n')) for x in vals):
+                dev_bad.append(f'{label}: returns {vals[0]!r}, expected the row found')
+            elif not accept and not all(isinstance(x, Scalar) and x.rf.equals(A.rf(-1)) for x in vals):
+                dev_bad.append(f'{label}: returns {vals[0]!r}, expected -1')
+    lf = reachable_leaves(tree, {'q': 4.0, 'dev': 1.0, 'n': -1.0})
+    vals = [x for l_ in lf if l_.kind == 'return' and l_.value is not None for _p, x in cond_leaves(l_.value)]
+    if len(vals) != len(lf) or not all(isinstance(x, Scalar) and x.rf.equals(A.rf(-1)) for x in vals):
+        dev_bad.append('the -1 of an empty sequence is not passed on (it would be used as a subscript)')
+    if dev_bad:
+        rep.fail('C20.R1', hp.path, ft.node.lineno, ft.qualname, 'deviation', 'nearest-time look-up: ' + '; '.join(sorted(set(dev_bad))[:3]))
     else:
-        rep.fail('C20.R1', hp.path, ft.node.lineno, ft.qualname, 'deviation',
-                 'the allowed deviation is not tested with <= (a row exactly at the allowed deviation is rejected, or '
-                 'no test at all)')
+        rep.ok('C20.R1', ft.where, f'deviation test is `|t_row - t| <= allowed deviation` ({2 * len(samples) + 1} sample orderings); -1 passed on')
 
     # ---- R2 ------------------------------------------------------------------------------------------------
     gad = prog.func(C.M_TD, 'HitResult.get_at_distance')
@@ -735,7 +1063,8 @@ VARIANTS = [
     Variant('bisect-right-true', 'break', [(HP, 'bisect.bisect_left(wrapper, True, 0, len(arr))', 'bisect.bisect_right(wrapper, True, 0, len(arr))')], 'C20.R1', 'positive control', 'caught'),
     Variant('unchecked-subscript', 'break', [(HP, '    if point_index >= 0:\n        return shot[point_index].time\n    return float("NaN")', '    return shot[point_index].time')], 'C20.R2'),
     Variant('get-at-distance-guard-weakened', 'break', [(TDF, '        if (i := self.index_at_distance(d)) < 0:', '        if (i := self.index_at_distance(d)) < -1:')], 'C20.R2'),
-    Variant('recheck-dropped', 'break', [(HP, '    if wrapper.check_condition(idx):\n        return idx\n    return -1', '    return idx')], 'C20.R1'),
+    Variant('twin-recheck-dropped', 'twin', [(HP, '    if wrapper.check_condition(idx):\n        return idx\n    return -1', '    return idx')], None,
+            'on a monotone predicate an index below len found by bisect_left(.., True) always qualifies: the re-check is redundant (the earlier pattern rule demanded it - a false alarm the proof removed)'),
     Variant('helper-distance-raw-units', 'break', [(HP, 'lambda p: (p.distance >> distance_unit) >= distance', 'lambda p: p.distance.raw_value >= distance')], 'C20.R1', 'the query is in the caller\'s unit, the key in raw inches'),
     Variant('deviation-strict', 'break', [(HP, 'if abs(shot.trajectory[index].time - time) <= max_time_deviation_in_seconds:', 'if abs(shot.trajectory[index].time - time) < max_time_deviation_in_seconds:')], 'C20.R1'),
     Variant('index-scan-descending', 'break', [(TDF, 'for i in range(len(self.trajectory))\n', 'for i in reversed(range(len(self.trajectory)))\n')], 'C20.R1'),
